@@ -9,6 +9,7 @@
   loop forms, every expression tree (no depth bound), every point of the tree's domain.
 -/
 import OpmVerif.Proofs.DenseAdMath
+import OpmVerif.Proofs.DenseAd2
 
 namespace OpmVerif.Props.C16
 open OpmVerif.DenseAd OpmVerif.DenseAd.Gen
@@ -137,5 +138,148 @@ example : (U9.ops : ADOps Float 9) = L.ops := variants_agree.2.2.2.2.2.2.2.2.1
 
 /-- slot 7 of Evaluation9's product, as the property text spells it -/
 example (a b : Fin 10 → ℝ) : (U9.ops : ADOps ℝ 9).mul a b 7 = a 7 * b 0 + b 7 * a 0 := rfl
+
+/-! ## Second part: compound assignment under aliasing, comparison operators, factories, ties -/
+
+section anytype2
+variable {α : Type} [Add α] [Sub α] [Mul α] [Div α] [Neg α] [OfNat α 0] [OfNat α 1] [OfNat α 2]
+  [LT α] [DecidableLT α] [LE α] [DecidableLE α] [BEq α]
+
+/-- All variants agree on the second operator set too — `x += x`, `x -= x`, `x *= x`, `x /= x` (the
+right-hand side aliases `*this`), the 12 member and 5 friend comparison operators, `createConstantZero`,
+`createConstantOne`, `createConstant(x, c)`, `createVariable(x, c, k)`: every specialisation and the dynamic
+class (every size) compute the expressions of the generic loop form.  Any carrier type, hence IEEE doubles. -/
+theorem variants_agree2 :
+    (U1.ops2 : ADOps2 α 1) = L.ops2 ∧ (U2.ops2 : ADOps2 α 2) = L.ops2 ∧ (U3.ops2 : ADOps2 α 3) = L.ops2 ∧
+    (U4.ops2 : ADOps2 α 4) = L.ops2 ∧ (U5.ops2 : ADOps2 α 5) = L.ops2 ∧ (U6.ops2 : ADOps2 α 6) = L.ops2 ∧
+    (U7.ops2 : ADOps2 α 7) = L.ops2 ∧ (U8.ops2 : ADOps2 α 8) = L.ops2 ∧ (U9.ops2 : ADOps2 α 9) = L.ops2 ∧
+    (U10.ops2 : ADOps2 α 10) = L.ops2 ∧ (U11.ops2 : ADOps2 α 11) = L.ops2 ∧ (U12.ops2 : ADOps2 α 12) = L.ops2 ∧
+    ∀ n : Nat, (D.ops2 : ADOps2 α n) = L.ops2 :=
+  ⟨GenProofs.U1_ops2_eq_loop, GenProofs.U2_ops2_eq_loop, GenProofs.U3_ops2_eq_loop, GenProofs.U4_ops2_eq_loop,
+   GenProofs.U5_ops2_eq_loop, GenProofs.U6_ops2_eq_loop, GenProofs.U7_ops2_eq_loop, GenProofs.U8_ops2_eq_loop,
+   GenProofs.U9_ops2_eq_loop, GenProofs.U10_ops2_eq_loop, GenProofs.U11_ops2_eq_loop, GenProofs.U12_ops2_eq_loop,
+   fun _ => GenProofs.D_ops2_eq_loop⟩
+
+/-- Compound assignment whose argument is the object itself computes the binary operation on two copies
+(no slot is read after it was overwritten), as expressions, for every carrier type and every n. -/
+theorem self_assign_eq_binary {n : Nat} (a : Fin (n + 1) → α) :
+    L.addSelf a = L.add a a ∧ L.subSelf a = L.sub a a ∧ L.mulSelf a = L.mul a a ∧ L.divSelf a = L.div a a :=
+  ⟨GenProofs.L_addSelf_eq a, GenProofs.L_subSelf_eq a, GenProofs.L_mulSelf_eq a, GenProofs.L_divSelf_eq a⟩
+
+/-- `createConstant(nVars, c)` / `createVariable(nVars, c, k)` of specialisation N accept exactly nVars = N;
+the dynamic class accepts every nVars (the result is sized by it). -/
+theorem unrolled_factory_arity :
+    U1.factoryArity = some 1 ∧ U2.factoryArity = some 2 ∧ U3.factoryArity = some 3 ∧ U4.factoryArity = some 4 ∧
+    U5.factoryArity = some 5 ∧ U6.factoryArity = some 6 ∧ U7.factoryArity = some 7 ∧ U8.factoryArity = some 8 ∧
+    U9.factoryArity = some 9 ∧ U10.factoryArity = some 10 ∧ U11.factoryArity = some 11 ∧ U12.factoryArity = some 12 ∧
+    ∀ n, D.factoryArity n = none :=
+  ⟨rfl, rfl, rfl, rfl, rfl, rfl, rfl, rfl, rfl, rfl, rfl, rfl, fun _ => rfl⟩
+/-- The generic class (primary template, every n — the sizes 13…16 and the `staticSize` instantiations):
+`createConstant(nVars, c)` / `createVariable(nVars, c, k)` accept exactly nVars = n, like every
+specialisation (before fix 8f428cec0 the guard read `nVars != 0`). -/
+theorem generic_factory_arity (n : Nat) : L.factoryArity n = some (n : Int) := rfl
+end anytype2
+
+section ordered
+variable {K : Type} [Field K] [LinearOrder K]
+
+/-- Generic loop form, EVERY n: `x op= x` is `x op x` in dual-number arithmetic; `<  >  <=  >=` in all
+three forms (Evaluation∘Evaluation, Evaluation∘scalar, scalar∘Evaluation) compare the values — at ties
+too; `a == b` holds iff every slot agrees, `a == c` iff the value is c; `!=` is the negation; the
+factories are the constants 0, 1, c and the variable seed. -/
+theorem generic_exact2 (n : Nat) : Exact2 (L.ops2 : ADOps2 K n) := loop_exact2
+
+/-- the same for the dynamically sized class, every run-time size -/
+theorem dynamic_exact2 (n : Nat) : Exact2 (D.ops2 : ADOps2 K n) := OpmVerif.DenseAd.dynamic_exact2
+
+/-- the same for each unrolled specialisation 1…12 -/
+theorem unrolled_exact2 :
+    Exact2 (U1.ops2 : ADOps2 K 1) ∧ Exact2 (U2.ops2 : ADOps2 K 2) ∧ Exact2 (U3.ops2 : ADOps2 K 3) ∧
+    Exact2 (U4.ops2 : ADOps2 K 4) ∧ Exact2 (U5.ops2 : ADOps2 K 5) ∧ Exact2 (U6.ops2 : ADOps2 K 6) ∧
+    Exact2 (U7.ops2 : ADOps2 K 7) ∧ Exact2 (U8.ops2 : ADOps2 K 8) ∧ Exact2 (U9.ops2 : ADOps2 K 9) ∧
+    Exact2 (U10.ops2 : ADOps2 K 10) ∧ Exact2 (U11.ops2 : ADOps2 K 11) ∧ Exact2 (U12.ops2 : ADOps2 K 12) :=
+  ⟨unrolled_exact2_1, unrolled_exact2_2, unrolled_exact2_3, unrolled_exact2_4, unrolled_exact2_5, unrolled_exact2_6,
+   unrolled_exact2_7, unrolled_exact2_8, unrolled_exact2_9, unrolled_exact2_10, unrolled_exact2_11, unrolled_exact2_12⟩
+
+/-- Ordering comparisons with a scalar, in both operand orders, equal the all-Evaluation comparison with
+the lifted constant, and `c ⋚ x` is `x ⋛ c` — for every exact operator set (every variant, every n). -/
+theorem comparisons_mixed_eq_lifted {n : Nat} {ops : ADOps K n} {o : ADOps2 K n} (hx : Exact ops) (h2 : Exact2 o)
+    (a : Fin (n + 1) → K) (c : K) :
+    o.ltS a c = o.ltE a (ops.const c) ∧ o.gtS a c = o.gtE a (ops.const c) ∧
+    o.leS a c = o.leE a (ops.const c) ∧ o.geS a c = o.geE a (ops.const c) ∧
+    o.slt c a = o.ltE (ops.const c) a ∧ o.sgt c a = o.gtE (ops.const c) a ∧
+    o.sle c a = o.leE (ops.const c) a ∧ o.sge c a = o.geE (ops.const c) a ∧
+    o.slt c a = o.gtS a c ∧ o.sgt c a = o.ltS a c ∧ o.sle c a = o.geS a c ∧ o.sge c a = o.leS a c :=
+  cmp_mixed_eq_lifted hx h2 a c
+
+/-- `x == c` (value only) versus `x == Evaluation(c)` (every slot): they agree exactly when all
+derivatives of x vanish — the mixed form is NOT the lifted form here, by the code's design. -/
+theorem eq_scalar_vs_lifted {n : Nat} {ops : ADOps K n} {o : ADOps2 K n} (hx : Exact ops) (h2 : Exact2 o)
+    (a : Fin (n + 1) → K) (c : K) :
+    (o.eqE a (ops.const c) = true ↔ o.eqS a c = true ∧ ∀ j : Fin n, a j.succ = 0) := eqS_vs_eqE hx h2 a c
+end ordered
+
+/-- Derivation rules over an ARBITRARY commutative ring (no division, no order), every n: sum, difference,
+Leibniz product rule, negation, the scalar forms in both operand orders, constants, `x *= x`. -/
+theorem ring_derivation_rules {R : Type} [CommRing R] [Div R] {n : Nat} (a b : Fin (n + 1) → R) (c : R) :
+    toDual ((L.ops : ADOps R n).add a b) = Dual.add (toDual a) (toDual b) ∧
+    toDual ((L.ops : ADOps R n).sub a b) = Dual.sub (toDual a) (toDual b) ∧
+    toDual ((L.ops : ADOps R n).mul a b) = Dual.mul (toDual a) (toDual b) ∧
+    toDual ((L.ops : ADOps R n).neg a) = Dual.neg (toDual a) ∧
+    toDual ((L.ops : ADOps R n).adds a c) = Dual.add (toDual a) (Dual.const c) ∧
+    toDual ((L.ops : ADOps R n).subs a c) = Dual.sub (toDual a) (Dual.const c) ∧
+    toDual ((L.ops : ADOps R n).muls a c) = Dual.mul (toDual a) (Dual.const c) ∧
+    toDual ((L.ops : ADOps R n).sadd c a) = Dual.add (Dual.const c) (toDual a) ∧
+    toDual ((L.ops : ADOps R n).ssub c a) = Dual.sub (Dual.const c) (toDual a) ∧
+    toDual ((L.ops : ADOps R n).smul c a) = Dual.mul (Dual.const c) (toDual a) ∧
+    toDual ((L.ops : ADOps R n).const c) = Dual.const c ∧
+    toDual (L.mulSelf a) = Dual.mul (toDual a) (toDual a) := loop_ring_exact a b c
+
+/-- `MathToolbox<Evaluation>::isSame / isfinite / isnan` (one template for every variant), every n, any carrier and
+any scalar toolbox: `isSame(a, b, tol)` holds iff value AND every derivative are the same up to tol,
+`isfinite` iff every slot is finite, `isnan` iff some slot (value or a derivative) is NaN. -/
+theorem toolbox_predicates {α : Type} {n : Nat} (P : Preds α) (a b : Fin (n + 1) → α) (tol : α) :
+    (M.isSame P a b tol = true ↔ ∀ i, P.isSame (a i) (b i) tol = true) ∧
+    (M.isfinite P a = true ↔ ∀ i, P.isfinite (a i) = true) ∧
+    (M.isnan P a = true ↔ ∃ i, P.isnan (a i) = true) :=
+  ⟨isSame_iff P a b tol, isfinite_iff P a, isnan_iff P a⟩
+
+/-- Math.hpp at ties and at the kink, every input: `min`/`max` return one of their operands whole
+(value and all derivatives) — the SECOND one at a tie; `min/max(c, x)` return x at a tie; `abs` returns
+−x at x = 0; the value slot is min / max / |·| everywhere. -/
+theorem minmax_abs_at_ties {n : Nat} (a b : Fin (n + 1) → ℝ) (c : ℝ) :
+    (M.min RF a b = if a 0 < b 0 then a else b) ∧ (M.max RF a b = if a 0 > b 0 then a else b) ∧
+    (M.smin RF c a = if c < a 0 then L.const c else a) ∧ (M.smax RF c a = if c > a 0 then L.const c else a) ∧
+    (M.abs RF a = if a 0 > 0 then a else L.neg a) ∧
+    (M.min RF a b 0 = min (a 0) (b 0) ∧ M.max RF a b 0 = max (a 0) (b 0) ∧
+     M.smin RF c a 0 = min c (a 0) ∧ M.smax RF c a 0 = max c (a 0) ∧ M.abs RF a 0 = |a 0|) :=
+  ⟨min_select a b, max_select a b, smin_select c a, smax_select c a, abs_select a, minmax_abs_value a b c⟩
+
+/-- The special-cased base 0 of all three `pow` overloads: the result is the constant 0 in every slot
+(so `pow(0, 0) = 0` and d/dx x¹ at 0 is reported as 0 — the code as it is). -/
+theorem pow_base_zero {n : Nat} (a b : Fin (n + 1) → ℝ) (c : ℝ) :
+    (a 0 = 0 → M.pow RF a b = L.const 0) ∧ (a 0 = 0 → M.pows RF a c = L.const 0) ∧ M.spow RF 0 a = L.const 0 :=
+  pow_zero_base a b c
+
+/-- `pow(x, m)` with an integer exponent m and ANY non-zero base (negative bases included): value xᵐ and
+the chain rule with derivative m·xᵐ⁻¹. -/
+theorem pow_integer_exponent {n : Nat} (a : Fin (n + 1) → ℝ) (m : ℤ) (h : a 0 ≠ 0) :
+    ∃ d, HasDerivAt (fun t : ℝ => t ^ m) d (a 0) ∧
+      toDual (M.pows RF a (m : ℝ)) = Dual.chain ((a 0) ^ m) d (toDual a) := pows_int_exact a m h
+
+/-! Non-vacuity (second part). -/
+/-- a NaN-like marker in derivative slot 2 only is seen by `isnan` -/
+example : M.isnan (n := 2) (⟨fun x => x == 7, fun x => x != 7, fun a b _ => a == b⟩ : Preds Nat) ![1, 2, 7] = true := by decide
+example : Exact2 (U8.ops2 : ADOps2 ℚ 8) := unrolled_exact2.2.2.2.2.2.2.2.1
+example : (U8.ops2 : ADOps2 Float 8) = L.ops2 := variants_agree2.2.2.2.2.2.2.2.1
+/-- a tie: equal values, different derivatives — `<=` holds, `==` does not -/
+example : (L.ops2 : ADOps2 ℚ 1).leE ![1, 2] ![1, 3] = true ∧ (L.ops2 : ADOps2 ℚ 1).eqE ![1, 2] ![1, 3] = false := by
+  constructor <;> decide
+/-- friend `2 >= x` at the tie x = 2 -/
+example : (U3.ops2 : ADOps2 ℚ 3).sge 2 ![2, 0, 1, 5] = true := by decide
+/-- the hypothesis of `pow_integer_exponent` with a negative base -/
+example : ((fun _ => -2 : Fin 3 → ℝ) 0) ≠ 0 := by norm_num
+/-- `x /= x` in slot 2 of Evaluation4 -/
+example (a : Fin 5 → ℚ) : U4.divSelf a 2 = (a 0 * a 2 - a 0 * a 2) / (a 0 * a 0) := rfl
 
 end OpmVerif.Props.C16
